@@ -45,6 +45,14 @@ def main(argv):
             elif variant.get("extra_defs") == "after":
                 text = text + "\n" + UNRELATED.format(k=91) + "\n"
             dig = {"i": si, "steps": [], "strs": []}
+            if variant.get("sym_boundary") and si < 5:
+                # history in which a power of ten of the global symbol counter falls among the
+                # symbols this session creates (as if that many symbols had been made before)
+                import random as _r
+
+                target = 10 ** (3 + si) - _r.Random(f"{variant.get('sym_boundary')}:{si}").randrange(0, 160)
+                if Sym._unq_count < target:
+                    Sym._unq_count = target
             try:
                 mod = load_program(text, scratch, tag=f"s{si}")
                 sess = Session(mod, s["root"], text)
